@@ -435,11 +435,11 @@ where
         let mut sss = SliceSubmode::empty();
         let sss_bits: u8 = reader.read_bits(2)?;
 
-        if sss_bits & 0x01 != 0 {
+        if sss_bits & 0x02 != 0 {
             sss |= SliceSubmode::RECTANGULAR_SLICES;
         }
 
-        if sss_bits & 0x02 != 0 {
+        if sss_bits & 0x01 != 0 {
             sss |= SliceSubmode::ARBITRARY_ORDER;
         }
 
